@@ -7,6 +7,7 @@ import (
 	"encoding/json"
 	"fmt"
 	"math/big"
+	"regexp"
 	"sort"
 	"strings"
 
@@ -859,6 +860,28 @@ func monitorScriptVars(api string, script *J, vars map[string]string) []string {
 	return out
 }
 
+// C38 on the decoders: an ACCEPTED postings request only carries well-formed postings (the statement of the property, written
+// here independently of the code's own regexps and of the model)
+var monAddrRe = regexp.MustCompile(`^[a-zA-Z0-9_-]+(:[a-zA-Z0-9_-]+)*$`)
+var monAssetRe = regexp.MustCompile(`^[A-Z][A-Z0-9]{0,16}(_[A-Z]{1,16})?(/[0-9]{1,6})?$`)
+
+func monitorAccepted(kind string, res decResult) string {
+	if kind != "v2tx" || res.core == nil || res.tr == nil {
+		return ""
+	}
+	for i, p := range res.tr.Postings {
+		switch {
+		case p.Amount == nil || p.Amount.Sign() < 0:
+			return fmt.Sprintf("accepted request with posting %d without a non-negative amount [accepted-invalid-posting]", i)
+		case !monAddrRe.MatchString(p.Source) || !monAddrRe.MatchString(p.Destination):
+			return fmt.Sprintf("accepted request with posting %d having an invalid address %q -> %q [accepted-invalid-posting]", i, p.Source, p.Destination)
+		case !monAssetRe.MatchString(p.Asset):
+			return fmt.Sprintf("accepted request with posting %d having an invalid asset %q [accepted-invalid-posting]", i, p.Asset)
+		}
+	}
+	return ""
+}
+
 // C38 on the decoders: a panic is never the answer to a body
 func monitorPanic(kind string, j *J, res decResult) string {
 	if res.panic == "" {
@@ -911,6 +934,9 @@ func cmdAPIDec(args []string) int {
 			}
 		}
 		if msg := monitorPanic(kind, j, res); msg != "" {
+			out.Violation("C38", cs, msg)
+		}
+		if msg := monitorAccepted(kind, res); msg != "" {
 			out.Violation("C38", cs, msg)
 		}
 		for _, msg := range monitorAmounts(kind, j, res) {
